@@ -336,7 +336,8 @@ def _label(v):
 MODULE_SCOPE = {
     "self.curr_func": NONE,
     "self.sym_table": DictV(((Const("$symtab"), Const("local")), (Const("x"), Sym(("var", "x"))),
-                             (Const("y"), Sym(("var", "y"))), (Const("z"), Sym(("var", "z"))))),
+                             (Const("y"), Sym(("var", "y"))), (Const("z"), Sym(("var", "z"))),
+                             (Const("__annotations__"), DictV(((Const("$annotations"), Const(True)),))))),
     "self.global_sym_table": DictV(((Const("$symtab"), Const("global")),)),
     "self.local_sym_table": DictV(()),
     "self.sym_table_stack": ListV(()),
